@@ -621,10 +621,30 @@ def r6_damping_and_threshold(rule, root=None):
         if A.ident(A.strip(a_["left"])) == "damping":
             writes.append(a_)
     nconst = 0
+
+    def scale_free(e):
+        """an expression over `damping`, literals and f32 constants only"""
+        for n_ in A.walk(e):
+            if n_.get("k") == "Path":
+                segs = n_["segs"]
+                if segs == ["damping"] or segs[0] in ("f32", "f64", "std", "core"):
+                    continue
+                return False
+            if n_.get("k") in ("Field", "Index", "Macro", "Closure"):
+                return False
+            if n_.get("k") == "MethodCall" and n_["method"] not in ("min", "max", "clamp", "powi", "sqrt", "recip"):
+                return False
+            if n_.get("k") == "Call":
+                return False
+        return True
+
     for w in writes:
         rhs = _float_lit(w["right"])
         if w.get("k") == "Binary" and w["op"] in ("*=", "/=") and rhs is not None and rhs > 0:
             nconst += 1
+            continue
+        if scale_free(w["right"]) and (w.get("k") != "Binary" or w["op"] in ("*=", "/=")):
+            nconst += 1  # `damping = damping * 1.5`, a clamp to a constant ..
             continue
         rule.bad("damping|write", "the damping factor is rewritten by `%s`: its schedule must consist of constant factors only (it multiplies diag(J^T J), which already carries the scale of the problem)" % str(A.ftxt(w))[:80], A.where(SOL, w))
     if nconst >= 2:
